@@ -238,9 +238,31 @@ package common
 
 // ---- C20: syntactic equality of expressions (used by the duplicate-condition and self-assignment checks) ----
 // AST nodes are immutable once parsed, so CompExp is a function of its two arguments ("functional").
+// CompExp is structural equality of the two trees: it answers true only for nodes of the same kind with equal
+// immediate attributes whose components are pairwise CompExp-equal (calls: same callee, same method name or none, the
+// SAME NUMBER of arguments, all pairwise equal); function literals and table constructors never compare equal.
 //@ func CompExp
 //@   props C20
 //@   functional
+//@   ensures[equal-only-to-the-same-leaf-kind] result && (typeis(node1, "*ast.NilExp") || typeis(node1, "*ast.TrueExp") || typeis(node1, "*ast.FalseExp") || typeis(node1, "*ast.VarargExp"))
+//@        ==> (typeis(node1, "*ast.NilExp") <==> typeis(node2, "*ast.NilExp")) && (typeis(node1, "*ast.TrueExp") <==> typeis(node2, "*ast.TrueExp"))
+//@            && (typeis(node1, "*ast.FalseExp") <==> typeis(node2, "*ast.FalseExp")) && (typeis(node1, "*ast.VarargExp") <==> typeis(node2, "*ast.VarargExp"))
+//@   ensures[names-equal-iff-same-spelling] typeis(node1, "*ast.NameExp") ==> (result <==> typeis(node2, "*ast.NameExp") && streq(as(node1, "*ast.NameExp").Name, as(node2, "*ast.NameExp").Name))
+//@   ensures[integers-and-strings-by-value] (typeis(node1, "*ast.IntegerExp") ==> (result <==> typeis(node2, "*ast.IntegerExp") && as(node1, "*ast.IntegerExp").Val == as(node2, "*ast.IntegerExp").Val))
+//@        && (typeis(node1, "*ast.StringExp") ==> (result <==> typeis(node2, "*ast.StringExp") && streq(as(node1, "*ast.StringExp").Str, as(node2, "*ast.StringExp").Str)))
+//@   ensures[operators-componentwise] (typeis(node1, "*ast.BinopExp") ==> (result <==> typeis(node2, "*ast.BinopExp") && as(node1, "*ast.BinopExp").Op == as(node2, "*ast.BinopExp").Op
+//@            && CompExp(as(node1, "*ast.BinopExp").Exp1, as(node2, "*ast.BinopExp").Exp1) && CompExp(as(node1, "*ast.BinopExp").Exp2, as(node2, "*ast.BinopExp").Exp2)))
+//@        && (typeis(node1, "*ast.UnopExp") ==> (result <==> typeis(node2, "*ast.UnopExp") && as(node1, "*ast.UnopExp").Op == as(node2, "*ast.UnopExp").Op
+//@            && CompExp(as(node1, "*ast.UnopExp").Exp, as(node2, "*ast.UnopExp").Exp)))
+//@   ensures[table-access-componentwise] typeis(node1, "*ast.TableAccessExp") ==> (result <==> typeis(node2, "*ast.TableAccessExp")
+//@        && CompExp(as(node1, "*ast.TableAccessExp").PrefixExp, as(node2, "*ast.TableAccessExp").PrefixExp) && CompExp(as(node1, "*ast.TableAccessExp").KeyExp, as(node2, "*ast.TableAccessExp").KeyExp))
+//@   ensures[calls-need-the-same-callee-and-the-same-number-of-equal-arguments] result && typeis(node1, "*ast.FuncCallExp") ==> typeis(node2, "*ast.FuncCallExp")
+//@        && CompExp(as(node1, "*ast.FuncCallExp").PrefixExp, as(node2, "*ast.FuncCallExp").PrefixExp)
+//@        && len(as(node1, "*ast.FuncCallExp").Args) == len(as(node2, "*ast.FuncCallExp").Args)
+//@        && forall(k, 0, len(as(node1, "*ast.FuncCallExp").Args), CompExp(as(node1, "*ast.FuncCallExp").Args[k], as(node2, "*ast.FuncCallExp").Args[k]))
+//@        && (isnil(as(node1, "*ast.FuncCallExp").NameExp) <==> isnil(as(node2, "*ast.FuncCallExp").NameExp))
+//@   ensures[function-literals-and-table-constructors-never-equal] typeis(node1, "*ast.FuncDefExp") || typeis(node1, "*ast.TableConstructorExp") ==> !result
+//@   loop 0 invariant 0 <= i && i <= len(exp1.Args) && len(exp1.Args) == len(exp2.Args) && forall(k, 0, i, CompExp(exp1.Args[k], exp2.Args[k]))
 //@ end
 
 // GetExpName renders an expression to its canonical name string (AST immutable => functional).
